@@ -192,7 +192,11 @@ pub fn adf_sem(v: &Value) -> Value {
         seed[..8].copy_from_slice(&sd.to_le_bytes());
         adf.seed(seed);
     }
-    let (res, sender_alive) = run_proc(&mut adf, v["proc"].as_str().unwrap(), v);
+    let proc_ = v["proc"].as_str().unwrap();
+    if let Some((backend, inner)) = proc_.split_once('/') {
+        return backend_sem(n, &tabs, backend, inner, v);
+    }
+    let (res, sender_alive) = run_proc(&mut adf, proc_, v);
     let cls: Vec<String> = res.iter().map(|r| classes(r)).collect();
     let raw: Vec<Vec<usize>> = res.iter().map(|r| r.iter().map(|t| t.value()).collect()).collect();
     json!({"result": cls, "raw": raw, "nodes": dump_nodes(&adf.bdd), "sender_alive": sender_alive})
@@ -827,4 +831,80 @@ pub fn completion_search(v: &Value) -> Value {
         }
     }
     json!({"candidates": found, "tried": tried, "exhaustive": exhaustive})
+}
+
+
+/// a text whose statement i (named s<i>) has the acceptance condition given by truth table i (disjunctive normal form)
+pub fn text_from_tabs(n: usize, tabs: &[Vec<u8>]) -> String {
+    let mut text = String::new();
+    for i in 0..n {
+        text.push_str(&format!("s(s{}).\n", i));
+    }
+    for (i, t) in tabs.iter().enumerate() {
+        let rows: Vec<usize> = (0..(1usize << n)).filter(|a| t[*a] != 0).collect();
+        let f = if rows.is_empty() {
+            "c(f)".to_string()
+        } else if rows.len() == (1usize << n) {
+            "c(v)".to_string()
+        } else {
+            let mut disj: Option<String> = None;
+            for a in rows {
+                let mut conj: Option<String> = None;
+                for v_ in 0..n {
+                    let lit = if (a >> v_) & 1 == 1 { format!("s{}", v_) } else { format!("neg(s{})", v_) };
+                    conj = Some(match conj {
+                        None => lit,
+                        Some(c) => format!("and({},{})", c, lit),
+                    });
+                }
+                let c = conj.unwrap();
+                disj = Some(match disj {
+                    None => c,
+                    Some(d) => format!("or({},{})", d, c),
+                });
+            }
+            disj.unwrap()
+        };
+        text.push_str(&format!("ac(s{},{}).\n", i, f));
+    }
+    text
+}
+
+/// the semantics procedures of the biodivine-based Adf ("bio"), and the naive procedures after hybrid_step ("hyb") /
+/// hybrid_step_opt(false) ("hybraw"), on the ADF given by truth tables (through the real parser and the real biodivine library)
+pub fn backend_sem(n: usize, tabs: &[Vec<u8>], backend: &str, inner: &str, v: &Value) -> Value {
+    let text = text_from_tabs(n, tabs);
+    let parser = AdfParser::default();
+    if parser.parse()(&text).is_err() {
+        return json!({"error": "parse"});
+    }
+    let bio = BdAdf::from_parser(&parser);
+    let mut nodes = json!([]);
+    let mut sender_alive = false;
+    let res: Vec<Vec<Term>> = match backend {
+        "bio" => match inner {
+            "grounded" => vec![bio.grounded()],
+            "complete" => bio.complete().collect(),
+            "stable" => bio.stable().collect(),
+            "stable_rew" => bio.stable_bdd_representation(),
+            "stable_rew_pre" => BdAdf::from_parser_with_stm_rewrite(&parser).stable_bdd_representation(),
+            _ => return json!({"error": "proc"}),
+        },
+        "hyb" | "hybraw" => {
+            let mut adf = if backend == "hyb" { bio.hybrid_step() } else { bio.hybrid_step_opt(false) };
+            let r = if inner == "stable_rew2" {
+                adf.stable_bdd_representation(&bio)
+            } else {
+                let (r, alive) = run_proc(&mut adf, inner, v);
+                sender_alive = alive;
+                r
+            };
+            nodes = dump_nodes(&adf.bdd);
+            r
+        }
+        _ => return json!({"error": "backend"}),
+    };
+    let cls: Vec<String> = res.iter().map(|r| classes(r)).collect();
+    let raw: Vec<Vec<usize>> = res.iter().map(|r| r.iter().map(|t| t.value()).collect()).collect();
+    json!({"result": cls, "raw": raw, "nodes": nodes, "sender_alive": sender_alive, "text": text})
 }
